@@ -150,9 +150,25 @@ func (nc negateCondition) MarshalText() ([]byte, error) {
 
 // https://tools.ietf.org/html/rfc4791#section-9.9
 type timeRange struct {
-	XMLName xml.Name        `xml:"urn:ietf:params:xml:ns:caldav time-range"`
-	Start   dateWithUTCTime `xml:"start,attr,omitempty"`
-	End     dateWithUTCTime `xml:"end,attr,omitempty"`
+	XMLName xml.Name         `xml:"urn:ietf:params:xml:ns:caldav time-range"`
+	Start   *dateWithUTCTime `xml:"start,attr,omitempty"`
+	End     *dateWithUTCTime `xml:"end,attr,omitempty"`
+}
+
+// newTimeRange returns nil if both bounds are unset (zero), and leaves out
+// the bound which is unset otherwise.
+func newTimeRange(start, end time.Time) *timeRange {
+	if start.IsZero() && end.IsZero() {
+		return nil
+	}
+	var tr timeRange
+	if !start.IsZero() {
+		tr.Start = (*dateWithUTCTime)(&start)
+	}
+	if !end.IsZero() {
+		tr.End = (*dateWithUTCTime)(&end)
+	}
+	return &tr
 }
 
 const dateWithUTCTimeLayout = "20060102T150405Z"
